@@ -154,6 +154,20 @@ def run(ck):
                    samples=[dict(request=lines[k], impl=impl[k], model=model[k]) for k in (n_exh - 1, n_exh + 1, len(lines) - 1)],
                    exhaustive=True,
                    rule="all Boolean matrices with P,E<=4 (quick: P*E<=12) x both rest values, exhaustively; plus seeded random matrices up to 8x9 with densities 0.15..0.8; thorough adds every permutation of rows/columns of random matrices. distinct = distinct request lines; non-trivial = at least 2 patterns and 2 elements")
+    # the same requests against the runtime crate built WITHOUT debug assertions / overflow checks
+    impl2 = ck.rt_batch(lines, profile="nodebug")
+    d2 = 0
+    for c, ln, i, i2 in zip(cases, lines, impl, impl2):
+        if i != i2:
+            d2 += 1
+            rest, P, E, rows = c
+            want = spec_pass(rest, P, E, rows)
+            if d2 <= 3:
+                ck.report("profile-dependent:%s" % ("verdict" if (i2 == "[]") != want else "entries"),
+                          "set_match behaves differently when the crate is built without debug assertions" + ("" if (i2 == "[]") == want else ": the verdict is not 'length rule and a one-to-one assignment exists'"),
+                          dict(request=ln, with_debug_assertions=i, without_debug_assertions=i2, spec_pass=want), no_input=((i2 == "[]") == want and len(i2.split(";")) <= 1))
+    ck.corr_record("T4 set_match in two build profiles (the same requests against the harness built with and without debug assertions / overflow checks)",
+                   len(lines), len(nontrivial), d2, {}, samples=[dict(request=lines[0])], exhaustive=True, rule="same request set as above")
     ck.assumptions += [
         "predicates are modelled as a pure Boolean matrix M k i (the macro's probe closures are deterministic functions of the element; tied at macro level by C01-C03's correspondence)",
     ]
